@@ -9,6 +9,7 @@ import Katib.Drv.C17
 import Katib.Drv.C13
 import Katib.Drv.C20
 import Katib.Drv.C02
+import Katib.Drv.C12
 import Katib.Oracle.Sim
 open Katib Katib.Drv
 
@@ -25,6 +26,7 @@ def handle (toks : List String) : String :=
   | "C13" :: r => handleC13 r
   | "C20" :: r => handleC20 r
   | "C02" :: r => handleC02 r
+  | "C12" :: r => handleC12 r
   | _ => "bad-op"
 
 /-- oracle verdict for one `op => observed-output` line -/
@@ -40,6 +42,7 @@ def handleOracle (toks out : List String) : String :=
   | "C13" :: r => oracleLineC13 r out
   | "C20" :: r => oracleLineC20 r out
   | "C02" :: r => oracleLineC02 r out
+  | "C12" :: r => oracleLineC12 r out
   | _ => "bad-op"
 
 def splitArrow (toks : List String) : List String × List String :=
